@@ -236,6 +236,7 @@ const (
 	ClassLZW      = "lzw" // > 4 KiB incompressible: every LZW code width and a table reset
 	ClassSmooth   = "smooth"
 	ClassSimilar  = "similar" // CCITTFax: rows which differ little from the row above
+	ClassPage     = "page"    // CCITTFax: a fax-page-sized image (GenPage), see below
 )
 
 // Data is the input of a case.  Bytes holds the expanded data if it is small
@@ -317,6 +318,30 @@ func GenData(t *rapid.T, s *Spec) Data {
 		d.Stored, d.Bytes = true, b
 	}
 	return d
+}
+
+// GenPage draws a CCITTFax filter and an image of the size of an ordinary
+// fax page: 1728, 2048 or 2432 columns (or an odd width) and 1200-2400 rows,
+// K in {0, 4, -1}, with and without /Rows, EndOfBlock on and off.  The small
+// cases of GenSpec/GenData (at most 96 KiB of input) never reach the number
+// of rows at which a bound on the decoded output which is derived from the
+// wrong quantity becomes visible; a page of 1728 x 2200 pixels is 475 KB.
+// The data is not stored in the case (it is re-expanded from the seed).
+func GenPage(t *rapid.T) (Spec, Data) {
+	s := Spec{Kind: CCITTFax}
+	s.Columns = pick(t, "page_columns", 1728, 2048, 2432, 1728, 1733, 2591, 1216)
+	s.K = pick(t, "page_k", 0, 4, -1)
+	s.EndOfLine = rapid.Bool().Draw(t, "end_of_line")
+	s.ByteAlign = rapid.Bool().Draw(t, "byte_align")
+	s.BlackIs1 = rapid.Bool().Draw(t, "black_is_1")
+	s.IgnoreEOB = rapid.Bool().Draw(t, "ignore_eob")
+	d := Data{Class: ClassPage}
+	d.N = Size(t, "page_rows", 1200, 2400)
+	d.Seed = rapid.Uint64().Draw(t, "data_seed")
+	if rapid.Bool().Draw(t, "rows_given") {
+		s.Rows = d.N
+	}
+	return s, d
 }
 
 // safeRowBytes is RowBytes, or 1 for parameter sets without a sensible row
@@ -427,6 +452,30 @@ func expandBits(s Spec, class string, rows int, seed uint64) []byte {
 		}
 	}
 	switch class {
+	case ClassPage:
+		// cheap to produce: mostly white rows with a few black runs, rows
+		// repeated from above (short 2-D codes), and some random rows
+		white, black := byte(0xFF), byte(0)
+		if s.BlackIs1 {
+			white, black = 0, 1
+		}
+		for row := 0; row < rows; row++ {
+			cur := out[row*rb : (row+1)*rb]
+			switch k := r.Intn(16); {
+			case k == 0:
+				copy(cur, r.Bytes(rb))
+			case k < 6 && row > 0:
+				copy(cur, out[(row-1)*rb:row*rb])
+			default:
+				for i := range cur {
+					cur[i] = white
+				}
+				for n := r.Intn(5); n > 0; n-- {
+					x := r.Intn(cols)
+					set(row, x, x+1+r.Intn(200), black&1)
+				}
+			}
+		}
 	case ClassEqual:
 		v := byte(r.Intn(2))
 		for row := 0; row < rows; row++ {
